@@ -485,3 +485,25 @@ fn test_ll_default() {
     assert!(table.decode[59].num_bits == 5);
     assert!(table.decode[59].base_line == 32);
 }
+
+#[cfg(feature = "verif_hooks")]
+pub fn verif_lookup_ll_code(code: u8) -> (u32, u8) {
+    lookup_ll_code(code)
+}
+
+#[cfg(feature = "verif_hooks")]
+pub fn verif_lookup_ml_code(code: u8) -> (u32, u8) {
+    lookup_ml_code(code)
+}
+
+#[cfg(feature = "verif_hooks")]
+pub fn verif_default_distributions() -> (u8, Vec<i32>, u8, Vec<i32>, u8, Vec<i32>) {
+    (
+        LL_DEFAULT_ACC_LOG,
+        LITERALS_LENGTH_DEFAULT_DISTRIBUTION.to_vec(),
+        ML_DEFAULT_ACC_LOG,
+        MATCH_LENGTH_DEFAULT_DISTRIBUTION.to_vec(),
+        OF_DEFAULT_ACC_LOG,
+        OFFSET_DEFAULT_DISTRIBUTION.to_vec(),
+    )
+}
